@@ -27,7 +27,9 @@ type CleanCase struct {
 	// ProjDir names the directory holding the spokfile ("" = proj)
 	ProjDir string `json:"proj_dir,omitempty"`
 	// Invoke: how spok is pointed at the project (sandbox.Box.Invoke)
-	Invoke    string     `json:"invoke,omitempty"`
+	Invoke string `json:"invoke,omitempty"`
+	// Outputs: "files" = standard output and error are regular files (sandbox.Box.FileOutputs)
+	Outputs   string     `json:"outputs,omitempty"`
 	Tree      []string   `json:"tree"` // relative to the project; trailing '/' = directory
 	Literal   []string   `json:"literal"`
 	Named     []NamedOut `json:"named"`
@@ -44,6 +46,14 @@ type CleanCase struct {
 	// FullStdout: standard output is /dev/full: spok cannot report what it removes; what it removes
 	// (everything designated, or, if it gives up, nothing else) is unaffected by that
 	FullStdout bool `json:"full_stdout,omitempty"`
+	// Extra: names of defined tasks given on the command line along with --clean, after it or (ExtraFirst)
+	// in front of it. --clean is still what was asked for.
+	Extra      []string `json:"extra,omitempty"`
+	ExtraFirst bool     `json:"extra_first,omitempty"`
+	// ROOut: the declared output directory dist (holding a.js, a symbolic link to ../README.md and a hard
+	// link to src/main.c) is read-only for the user running spok, so that its entries cannot be
+	// removed. spok may fail; README.md and src/main.c are nobody's output and keep content and mode.
+	ROOut bool `json:"ro_out,omitempty"`
 }
 
 var cleanDepPool = []string{"build/*.o", "**/*.tmp", "src/main.c", "bin/app", "dist/**/*.js", "*.tmp", "b*/*", "README.md", "a/b/c.out"}
@@ -69,6 +79,7 @@ func genClean(t *rapid.T) CleanCase {
 	c := genCleanBody(t)
 	c.ProjDir = genProjDir(t)
 	c.Invoke = genInvoke(t)
+	c.Outputs = genOutputs(t)
 	return c
 }
 
@@ -113,6 +124,29 @@ func genCleanBody(t *rapid.T) CleanCase {
 	c.FullStdout = rapid.IntRange(0, 7).Draw(t, "full_stdout") == 0
 	if rapid.IntRange(0, 2).Draw(t, "with_deps") == 0 {
 		c.Deps = rapid.SliceOfN(rapid.SampledFrom(cleanDepPool), 1, 3).Draw(t, "deps")
+	}
+	if rapid.IntRange(0, 7).Draw(t, "ro_out") == 0 && !c.CleanTask {
+		c.ROOut = true
+		for _, need := range []string{"dist/a.js", "README.md", "src/main.c"} {
+			if !contains(c.Tree, need) {
+				c.Tree = append(c.Tree, need)
+			}
+		}
+		if !contains(c.Literal, "dist") {
+			c.Literal = append(c.Literal, "dist")
+		}
+		// README.md and src/main.c are to be bystanders in this case
+		keep := c.Literal[:0]
+		for _, l := range c.Literal {
+			if l != "src/main.c" {
+				keep = append(keep, l)
+			}
+		}
+		c.Literal = keep
+	}
+	if rapid.IntRange(0, 4).Draw(t, "with_task_names") == 0 {
+		c.Extra = rapid.SliceOfN(rapid.SampledFrom(cleanTaskNames[:c.NTasks]), 1, 2).Draw(t, "extra")
+		c.ExtraFirst = rapid.Bool().Draw(t, "extra_first")
 	}
 	return c
 }
@@ -167,6 +201,7 @@ func execClean(s *ev.Shard, b *sandbox.Box, c CleanCase) *rp.Fail {
 	if err := b.ResetFor(c.ProjDir, c.Invoke); err != nil {
 		return &rp.Fail{Sig: "harness", Msg: err.Error()}
 	}
+	b.FileOutputs = c.Outputs == "files"
 	src := c.source()
 	files := map[string]string{"spokfile": src}
 	var links [][2]string
@@ -194,6 +229,16 @@ func execClean(s *ev.Shard, b *sandbox.Box, c CleanCase) *rp.Fail {
 			return &rp.Fail{Sig: "harness", Msg: err.Error()}
 		}
 		_ = os.Lchown(lp, 65534, 65534)
+	}
+	if c.ROOut {
+		dist := filepath.Join(b.Proj, "dist")
+		_ = os.Symlink(filepath.Join("..", "README.md"), filepath.Join(dist, "readme-link"))
+		_ = os.Lchown(filepath.Join(dist, "readme-link"), 65534, 65534)
+		_ = os.Link(filepath.Join(b.Proj, "src", "main.c"), filepath.Join(dist, "main-hard.c"))
+		_ = os.Chmod(filepath.Join(b.Proj, "README.md"), 0o644)
+		_ = os.Chmod(filepath.Join(b.Proj, "src", "main.c"), 0o640)
+		_ = os.Chmod(dist, 0o555)
+		defer os.Chmod(dist, 0o755)
 	}
 	// bystanders above the project
 	if err := writeProject(b, b.Home, map[string]string{"sibling.txt": "sibling", "other/keep.txt": "keep"}); err != nil {
@@ -272,7 +317,11 @@ func execClean(s *ev.Shard, b *sandbox.Box, c CleanCase) *rp.Fail {
 		return &rp.Fail{Sig: "harness", Msg: err.Error()}
 	}
 	b.FullStdout = c.FullStdout
-	res := b.Run(b.Proj, []string{"LOG=" + logPath}, runTimeout, "--clean")
+	cleanArgs := append([]string{"--clean"}, c.Extra...)
+	if c.ExtraFirst {
+		cleanArgs = append(append([]string(nil), c.Extra...), "--clean")
+	}
+	res := b.Run(b.Proj, []string{"LOG=" + logPath}, runTimeout, cleanArgs...)
 	if res.TimedOut {
 		return &rp.Fail{Sig: "harness", Msg: "spok --clean timed out"}
 	}
@@ -280,7 +329,7 @@ func execClean(s *ev.Shard, b *sandbox.Box, c CleanCase) *rp.Fail {
 	if err != nil {
 		return &rp.Fail{Sig: "harness", Msg: err.Error()}
 	}
-	desc := fmt.Sprintf("project tree %v, spokfile:\n%s`spok --clean` (exit %d, stderr %q)", c.Tree, src, res.Exit, strings.TrimSpace(sandbox.Strip(res.Stderr)))
+	desc := fmt.Sprintf("project tree %v, spokfile:\n%s`spok %s` (exit %d, stderr %q)", c.Tree, src, strings.Join(cleanArgs, " "), res.Exit, strings.TrimSpace(sandbox.Strip(res.Stderr)))
 	changes := sandbox.Diff(before, after)
 
 	// 1. the project, its ancestors and the spokfile always survive
@@ -357,10 +406,10 @@ func execClean(s *ev.Shard, b *sandbox.Box, c CleanCase) *rp.Fail {
 		if _, still := after[cacheRel]; still {
 			return &rp.Fail{Sig: "cache-not-removed", Size: size, Msg: fmt.Sprintf("%s: the cache directory still exists after a successful --clean", desc)}
 		}
-	} else if c.FullStdout && len(changes) > 0 {
+	} else if c.FullStdout && !c.ROOut && len(changes) > 0 {
 		// it gave up because it could not print, after having removed some of what it was to remove
 		return &rp.Fail{Sig: "clean-stopped-half-way", Size: size, Msg: fmt.Sprintf("%s (standard output was /dev/full): spok failed after removing only part of the declared outputs", desc)}
-	} else if !unsafe && !c.BadGlob && !c.FullStdout {
+	} else if !unsafe && !c.BadGlob && !c.FullStdout && !c.ROOut {
 		return &rp.Fail{Sig: "clean-failed", Size: size, Msg: fmt.Sprintf("%s: every declared output is inside the project, yet --clean failed", desc)}
 	}
 	if s != nil {
